@@ -153,6 +153,12 @@ def enum_small(tier, seed):
                             sort_emit=rng.random() < 0.5, label_map=rng.random() < 0.5, exh=rng.random() < 0.5,
                             seed=rng.randrange(10**6), target=rng.choice(["nx", "g", "s", "dm"]), default=False))
         out.append(dict(g, default=True, target="nx", seed=rng.randrange(1000)))
+        # every isomorph of a target whose nodes are stored in shuffled order (one of them equals the sorted-order adjacency)
+        lab = list(range(g["n"]))
+        while lab == sorted(lab):
+            rng.shuffle(lab)
+        out.append(dict(g, labels=lab, n_iso=12, n_lc=1, method=None, depth=None, sort_emit=False, label_map=rng.random() < 0.5, exh=True,
+                        seed=rng.randrange(10**6), target="nx", default=False))
     return out, False
 
 
